@@ -425,6 +425,22 @@ def sweep(T, scratch, name, state, pre_state=None, mode="hook", points=None, max
         if os.path.exists(dlog):
             os.remove(dlog)
         rc2, err2 = T.deploy(run, deplog=dlog)
+        # the window between table->Save() and the reverse db: an accepted table whose reverse db is missing or
+        # rejected must make the next deployment decide rebuild_table=1 for that dictionary
+        try:
+            dlines = [l.split(" ") for l in open(dlog)]
+        except FileNotFoundError:
+            dlines = []
+        for f, (kind, what) in sorted(probe.items()):
+            if kind == "table" and what.startswith("accept"):
+                dn = f[:-len(".table.bin")]
+                rv = probe.get(dn + ".reverse.bin")
+                decided = [l for l in dlines if l[0] == "dict" and l[1] == dn and len(l) > 4]
+                if decided and (rv is None or not rv[1].startswith("accept")):
+                    res["reverse_window_points"] = res.get("reverse_window_points", 0) + 1
+                    if not all("rebuild_table=1" in l for l in decided[:1]):
+                        fails.append(dict(kind="reverse-window-not-rebuilt", artefact=dn + ".reverse.bin",
+                                          detail=dict(table=what, reverse=rv, decision=" ".join(decided[0]).strip())))
         if rc2 != 0:
             fails.append(dict(kind="redeploy-failed", artefact="-", detail="rc=%d %s" % (rc2, err2[-1500:])))
         rcd2, fdump = T.dump(run, tfile)
